@@ -306,6 +306,30 @@ fn convert_via_api(fmt: Fmt, text: &str) -> Result<String, ConvErr> {
     }
 }
 
+pub static CLI_RUNS: std::sync::atomic::AtomicU64 = std::sync::atomic::AtomicU64::new(0);
+
+/// the command-line binary built by ./check (DLV_DARKLUA_BIN), when it exists
+fn cli_binary() -> Option<std::path::PathBuf> {
+    let p = std::path::PathBuf::from(std::env::var("DLV_DARKLUA_BIN").ok()?);
+    p.is_file().then_some(p)
+}
+
+/// one document out of N goes through the command
+fn cli_sampling() -> u64 {
+    std::env::var("DLV_CLI_SAMPLING").ok().and_then(|s| s.parse().ok()).unwrap_or(12).max(1)
+}
+
+fn convert_via_cli(bin: &std::path::Path, ext: &str, text: &str) -> Result<String, String> {
+    let dir = tempfile::tempdir().map_err(|e| format!("harness: {}", e))?;
+    let file = dir.path().join(format!("data.{}", ext));
+    std::fs::write(&file, text).map_err(|e| format!("harness: {}", e))?;
+    let out = std::process::Command::new(bin).arg("convert").arg(&file).output().map_err(|e| format!("harness: cannot run {}: {}", bin.display(), e))?;
+    if !out.status.success() {
+        return Err(format!("exit status {:?}: {}", out.status.code(), String::from_utf8_lossy(&out.stderr).chars().take(600).collect::<String>()));
+    }
+    String::from_utf8(out.stdout).map_err(|_| "the command printed text that is not UTF-8".to_string())
+}
+
 const GENERATORS: [&str; 3] = ["dense", "readable", "retain_lines"];
 
 fn convert_via_bundle(ext: &str, text: &str, generator: &str) -> Result<String, String> {
@@ -444,6 +468,26 @@ fn check(case: &Case) -> Result<Checked, String> {
     match check_lua(&lua, &case.value, true) {
         Ok(b) => lua51 += b as u32,
         Err(e) => return Err(format!("convert: {}\n{}", e, ctx_text(Some(&lua)))),
+    }
+    // path 1b: the `darklua convert` command itself (the binary built from /repo's working tree by
+    // ./check), on a sample of the documents: it must print exactly what the library path gives
+    if let Some(bin) = cli_binary() {
+        if hash_str(&case.text) % cli_sampling() == 0 {
+            match convert_via_cli(&bin, &case.ext, &case.text) {
+                Ok(out) => {
+                    if out.trim_end_matches('\n') != lua.trim_end_matches('\n') {
+                        return Err(format!(
+                            "`darklua convert data.{}` prints something else than darklua_core::convert_data on the value read by the documented parser\n--- command output\n{}\n{}",
+                            case.ext,
+                            out.chars().take(2000).collect::<String>(),
+                            ctx_text(Some(&lua))
+                        ));
+                    }
+                    CLI_RUNS.fetch_add(1, std::sync::atomic::Ordering::Relaxed);
+                }
+                Err(e) => return Err(format!("`darklua convert data.{}` fails on a valid document: {}\n{}", case.ext, e, ctx_text(Some(&lua)))),
+            }
+        }
     }
     // path 2: a bundled require of the data file
     let bundled = match convert_via_bundle(&case.ext, &case.text, &case.generator) {
@@ -619,6 +663,13 @@ fn run(ctx: &RunCtx) {
     let n = avoid.long_bracket_applied.load(std::sync::atomic::Ordering::Relaxed);
     if n > 0 {
         ctx.add_class("avoid-applied:long-bracket-trailing-equals", n);
+    }
+    match cli_binary() {
+        Some(bin) => {
+            ctx.add_class("documents_also_converted_by_the_darklua_command", CLI_RUNS.load(std::sync::atomic::Ordering::Relaxed));
+            ctx.note(format!("`darklua convert` was run from {} on one document out of {}", bin.display(), cli_sampling()));
+        }
+        None => ctx.note("the `darklua convert` command was not exercised: no binary at DLV_DARKLUA_BIN (./check builds it)"),
     }
 }
 
